@@ -252,7 +252,7 @@ def install(eng):
 
     def py_enumerate(v, start=0):
         if isinstance(v, SymSeq):
-            return SymSeq(v.length, lambda i: (wrap(i + start), v.elem(i)), name=f"enumerate({v.name})")
+            return SymSeq(v.length, lambda i: (SymInt(i + start), v.elem(i)), name=f"enumerate({v.name})")
         return [(i + start, x) for i, x in enumerate(eng.iterate(v))]
 
     def py_zip(*vs):
